@@ -462,7 +462,7 @@ SIZES = {
     },
     "c09": {
         "quick": dict(n484=5, rl=[(6, 6, 1), (10, 10, 1), (14, 14, 1)], s3=30, s3q=0, gen=4, gq=0),
-        "thorough": dict(n484=60, rl=[(a, a, 2) for a in (6, 8, 10, 12, 14, 16, 18, 20)] + [(30, 30, 1), (40, 40, 1)], s3=400, s3q=0, gen=40, gq=0),
+        "thorough": dict(n484=100, rl=[(a, a, 2) for a in (6, 8, 10, 12, 14, 16, 18, 20)] + [(30, 30, 1), (40, 40, 1)], s3=600, s3q=0, gen=50, gq=0),
     },
     "c11": {
         "quick": dict(n484=10, rl=[(6, 6, 1), (10, 10, 1), (14, 14, 1), (20, 20, 1)], s3=55, s3q=6, gen=8, gq=8),
@@ -1106,13 +1106,18 @@ def _replay_c11(v):
     base = input_base(i)
     q = [tuple(split_text(t)) for t in i["queries"]]
     cfgs = [(i["system"], pm, i["weakly"]) for pm in i["backends"]]
-    _, out = _eval_item_guarded((0, base, q, cfgs, 0))
-    a, b = out[cfgs[0]], out[cfgs[1]]
-    if "ans" in a and "ans" in b:
-        bad = any(x != y for x, y, t1, t2 in zip(a["ans"], b["ans"], a["to"], b["to"]) if not (t1 or t2))
-    else:
-        bad = not ("refused" in a and "refused" in b)
-    return {"violates": bool(bad), i["backends"][0]: a, i["backends"][1]: b}
+    # some engine failures (e.g. KeyError inside pysat's RC2.get_core under rc2-mcb) depend on the process state:
+    # up to three attempts, the case violates if one of them disagrees
+    for attempt in range(1, 4):
+        _, out = _eval_item_guarded((0, base, q, cfgs, 0))
+        a, b = out[cfgs[0]], out[cfgs[1]]
+        if "ans" in a and "ans" in b:
+            bad = any(x != y for x, y, t1, t2 in zip(a["ans"], b["ans"], a["to"], b["to"]) if not (t1 or t2))
+        else:
+            bad = not ("refused" in a and "refused" in b)
+        if bad:
+            break
+    return {"violates": bool(bad), "attempts": attempt, i["backends"][0]: a, i["backends"][1]: b}
 
 
 # ---------------------------------------------------------------------------
